@@ -32,13 +32,14 @@ const (
 	OpSwitch
 	OpFill
 	OpByz
+	OpQiBurst
 	numOpKinds
 )
 
-var opKindNames = []string{"mine", "transfer", "convert", "qispend", "rewind", "switch", "fill", "byz"}
+var opKindNames = []string{"mine", "transfer", "convert", "qispend", "rewind", "switch", "fill", "byz", "qiburst"}
 
 // weighted kind table (index drawn uniformly)
-var opKindTable = []int{OpMine, OpMine, OpMine, OpMine, OpMine, OpTransfer, OpTransfer, OpConvert, OpConvert, OpQiSpend, OpQiSpend, OpQiSpend, OpRewind, OpSwitch, OpFill, OpByz, OpByz, OpByz}
+var opKindTable = []int{OpMine, OpMine, OpMine, OpMine, OpMine, OpTransfer, OpTransfer, OpConvert, OpConvert, OpQiSpend, OpQiSpend, OpQiSpend, OpRewind, OpSwitch, OpFill, OpByz, OpByz, OpByz, OpQiBurst}
 
 var OpGen = rapid.Custom(func(t *rapid.T) Op {
 	return Op{
@@ -169,6 +170,12 @@ func (r *Runner) Step(op Op) bool {
 		}
 	case OpQiSpend:
 		r.qiSpend(op)
+	case OpQiBurst:
+		// many Qi->Quai conversions at once (each spends one distinct output): stresses the per-block ETX budgets of worker vs validator
+		k := 8 + op.A%8
+		for i := 0; i < k; i++ {
+			r.qiSpend(Op{OpQiSpend, op.B + i, 0, 4, op.D}) // flavour index 4 = to-quai, one input
+		}
 	case OpMine:
 		_ = w.Fill(n)
 		cb := n.Cfg.QuaiCoinbase
@@ -249,7 +256,7 @@ func (r *Runner) qiSpend(op Op) {
 		return
 	}
 	head := n.Zone().CurrentHeader().NumberU64(common.ZONE_CTX)
-	flavours := []string{"honest", "honest", "honest", "dup-in-tx", "locked", "wrong-key", "overspend", "same-block-chain", "dup-in-block"}
+	flavours := []string{"honest", "honest", "fanout", "dust", "to-quai", "to-quai", "dup-in-tx", "locked", "wrong-key", "overspend", "dup-in-block"}
 	fl := flavours[op.C%len(flavours)]
 	var spendable, locked []Utxo
 	for _, u := range utxos {
@@ -306,14 +313,40 @@ func (r *Runner) qiSpend(op Op) {
 	if fl == "overspend" {
 		outAmt = new(big.Int).Add(total, types.Denominations[ins[0].Entry.Denomination])
 	}
-	denoms := splitDenominations(outAmt, 1+op.D%4)
+	maxOuts := 1 + op.D%4
+	if fl == "fanout" || fl == "dust" {
+		maxOuts = 6 + op.D%6
+	}
+	var denoms []uint8
+	if fl == "dust" && outAmt.Cmp(big.NewInt(2000)) > 0 {
+		// small denominations (trimmable after the regime's trim depths) first, the rest in large ones
+		for d := uint8(0); d <= types.MaxTrimDenomination && d < uint8(2+op.D%5); d++ {
+			denoms = append(denoms, d)
+			outAmt = new(big.Int).Sub(outAmt, types.Denominations[d])
+		}
+	}
+	denoms = append(denoms, splitDenominations(outAmt, maxOuts-len(denoms))...)
+	var data []byte
+	convertTo := -1
+	if fl == "to-quai" {
+		// Qi->Quai conversion: the first output goes to an in-zone Quai address, data = 2-byte slip + 20-byte Qi refund address
+		if len(denoms) == 0 {
+			return
+		}
+		convertTo = op.A % 4
+		denoms = denoms[:1]
+	}
 	used := map[common.AddressBytes]bool{}
 	for _, u := range ins {
 		used[common.AddressBytes(u.Entry.Address)] = true
 	}
 	var outs []types.TxOut
 	ai := op.A
-	for _, d := range denoms {
+	for di, d := range denoms {
+		if convertTo >= 0 && di == 0 {
+			outs = append(outs, types.TxOut{Denomination: d, Address: quaiAccounts[convertTo].Addr.Bytes()})
+			continue
+		}
 		for k := 0; k < len(qiAccounts); k++ {
 			a := qiAccounts[(ai+k)%len(qiAccounts)].Addr
 			if !used[a.Bytes20()] {
@@ -327,16 +360,18 @@ func (r *Runner) qiSpend(op Op) {
 	if len(outs) == 0 {
 		return
 	}
-	// Qi transactions are ordered by fee per gas with ties broken by map order: never submit two of the same (fee, shape)
-	shape := fmt.Sprintf("%v/%d/%d", new(big.Int).Sub(total, outAmt), len(ins), len(outs))
-	if r.qiFeeShapes == nil {
-		r.qiFeeShapes = map[string]bool{}
+	if convertTo >= 0 {
+		for k := 0; k < len(qiAccounts); k++ {
+			a := qiAccounts[(ai+k)%len(qiAccounts)].Addr
+			if !used[a.Bytes20()] {
+				data = append([]byte{0, byte(op.D % 4 * 60)}, a.Bytes()...)
+				break
+			}
+		}
+		if len(data) != 22 {
+			return
+		}
 	}
-	if r.qiFeeShapes[shape] {
-		r.inc("qi_skipped_fee_tie")
-		return
-	}
-	r.qiFeeShapes[shape] = true
 	var tx *types.Transaction
 	var err error
 	if fl == "wrong-key" {
@@ -344,9 +379,9 @@ func (r *Runner) qiSpend(op Op) {
 		if qiKeyByAddr[common.AddressBytes(ins[0].Entry.Address)] == wrong {
 			wrong = qiAccounts[(op.A+4)%len(qiAccounts)].Key
 		}
-		tx, err = BuildQiTx(ins, outs, nil, []*ecdsaKey{wrong})
+		tx, err = BuildQiTx(ins, outs, data, []*ecdsaKey{wrong})
 	} else {
-		tx, err = BuildQiTx(ins, outs, nil, nil)
+		tx, err = BuildQiTx(ins, outs, data, nil)
 	}
 	if err != nil {
 		w.Tr.Event("qi build err=%v", err)
